@@ -244,7 +244,11 @@ Proof.
   destruct (negb (leaf_stable_b yl (vr_skip_none vr) lf (lf_def lf)) && (veq w (lf_def lf) || vr_skip_default vr)) eqn:E8;
     [discriminate|].
   destruct (N.eqb (skipdef_class yl vr lf w) 0) eqn:Esd; simpl in Hc;
-    [apply N.eqb_eq in Esd|apply N.eqb_neq in Esd; congruence].
+    [apply N.eqb_eq in Esd
+    |apply N.eqb_neq in Esd;
+     destruct (N.eqb (skipdef_class yl vr lf w) 11 && negb (N.eqb (text_class yl vr lf w) 0)) eqn:E11;
+     [apply andb_true_iff in E11; destruct E11 as [_ E11]; apply negb_true_iff in E11; apply N.eqb_neq in E11; congruence
+     |congruence]].
   assert (Hpresent : forall j, dump_entry yl vr lf w = EPresent j ->
             (vr_fmt vr = FJson -> has_nonfinite j = false)).
   { intros j Hj Ef. unfold text_class in Hc. rewrite Hj, Ef in Hc.
